@@ -256,10 +256,38 @@ def check_evaluators(h: Harness):
         os.unlink(path)
 
 
+def corpus():
+    """fixed witnesses of type shapes the generator only meets by luck: size-refined lists whose elements are lists /
+    refined values / tuples / unions, nested wrappers"""
+    C = gram.ClassSpec
+    r02 = ("ann", "int", ("intRange", 0, 2))
+    return [
+        gram.Spec([C("A0", True, None), C("Leaf", False, 0, [("k", r02)]),
+                   C("Grid", False, 0, [("cells", ("ann", ("list", ("list", r02)), ("listSize", 1, 2)))]),
+                   C("Bag", False, 0, [("xs", ("ann", ("list", r02), ("listSize", 1, 3))), ("n", ("ann", ("list", ("ann", "str", ("varRange", ["x", "y"]))), ("listSize", 0, 2)))]),
+                   C("Mix", False, 0, [("ps", ("ann", ("list", ("tuple", ("cls", 0), "bool")), ("listSize", 1, 2))),
+                                       ("us", ("ann", ("list", ("union", ("cls", 1), r02)), ("listSize", 1, 2)))])], 0, [1, 2, 3, 4]),
+        gram.Spec([C("A0", True, None), C("Leaf", False, 0, []),
+                   C("Deep", False, 0, [("m", ("list", ("ann", ("list", ("ann", ("list", ("cls", 0)), ("listSize", 1, 1))), ("listSize", 1, 2))))]),
+                   C("T", False, 0, [("t", ("tuple", ("list", r02), ("ann", ("tuple", "int", "int"), ("interval", 1, 2, 4))))])], 0, [1, 2, 3]),
+    ]
+
+
 def run(h: Harness):
     rng = h.rng
     check_evaluators(h)
     retarget_scenario(h, rng)
+    for spec in corpus():
+        b = gram.build(spec)
+        g = b.extract()
+        mind = g.get_min_tree_depth()
+        for kind in ("grow", "full", "pigrow", "progressive"):
+            for depth in (mind, mind + 1, mind + 2):
+                for _ in range(2):
+                    check_create(h, spec, b, kind, depth, [rng.randrange(0, 1000) for _ in range(128)])
+        check_tree_ops(h, spec, b, g, mind, rng)
+        check_linear(h, spec, b, g, mind, rng)
+        h.count("corpus-grammars")
     nspecs = h.n(120, 2400)
     for _ in range(nspecs):
         dep = rng.random() < 0.25
